@@ -179,9 +179,11 @@ impl<'a, N: Normalizer> XmlSerializer<'a, N> {
                 r
             }
             Prefix(prefix_id, namespace_id) => {
-                // we don't want to output the xml prefix, nor an inherited
+                // we don't want to output the xml prefix (which cannot be
+                // bound to anything but the XML namespace), nor an inherited
                 // default namespace for a top element that is in no namespace
                 if *namespace_id == self.xot.xml_namespace()
+                    || *prefix_id == self.xot.xml_prefix()
                     || (self.skip_inherited_default == Some(node)
                         && *prefix_id == self.xot.empty_prefix()
                         && !self.xot.namespaces(node).contains_key(*prefix_id))
